@@ -33,8 +33,9 @@ Definition pristine (dom0 : N * N * N) : istate :=
 
 Definition is_none (g : gm) : bool := match g with GmNone => true | _ => false end.
 
-(** [cap] = LONG_MAX *)
-Definition istep (cap : N) (st : istate) (op : iop) : istate :=
+(** [cap] = LONG_MAX; [rd] = [Some d] when Terminate restores the built-in DOM heap parameters [d]
+    (XMLInitializer::terminateDOMHeap, fixes/C18-domheap-reset-on-terminate.patch), [None] for the code without it *)
+Definition istep (rd : option (N * N * N)) (cap : N) (st : istate) (op : iop) : istate :=
   match op with
   | Init user dom =>
       if i_cnt st =? cap then st                                        (* if (gInitFlag == LONG_MAX) return; *)
@@ -64,11 +65,11 @@ Definition istep (cap : N) (st : istate) (op : iop) : istate :=
           {| i_cnt := 0; i_mgr := GmNone;
              i_adopted := true;                                         (* else fgMemMgrAdopted = true *)
              i_live := false;
-             i_dom := i_dom st;                                         (* NOT restored (finding C18-DOMHEAP-STICKY) *)
+             i_dom := match rd with Some d => d | None => i_dom st end; (* None: NOT restored (finding C18-DOMHEAP-STICKY) *)
              i_log := i_log st ++ [EDestroy] ++ (if i_adopted st then [EDeleteMgr (i_mgr st)] else []) |}
   end.
 
-Definition irun (cap : N) (st : istate) (ops : list iop) : istate := fold_left (istep cap) ops st.
+Definition irun (rd : option (N * N * N)) (cap : N) (st : istate) (ops : list iop) : istate := fold_left (istep rd cap) ops st.
 
 (** what gInitFlag should be after a sequence of calls *)
 Definition count_after (cap : N) (c : N) (op : iop) : N :=
